@@ -24,6 +24,13 @@ def main():
     repo = os.path.join(work, 'repo')
     vf = os.path.join(work, 'verif')
     meta = {'seed': sid, 'property': pid, 'ran': []}
+    try:        # keep the description of an earlier run
+        prev = json.load(open(os.path.join(VERIF, 'seeded', sid, 'meta.json')))
+        for k in ('what', 'round', 'needs'):
+            if k in prev:
+                meta[k] = prev[k]
+    except Exception:
+        pass
     try:
         sh(f'cp -r /repo {repo}')
         sh('git checkout -q -- . && git clean -fdq', cwd=repo)
